@@ -26,6 +26,7 @@ import WinterProofs.C10
 import WinterProofs.Lemmas.C04Run
 import WinterProofs.C01
 import Winter.Model.RefProver
+import WinterProofs.C01ProverInst
 
 set_option linter.unusedSectionVars false
 set_option linter.unusedVariables false
@@ -444,9 +445,9 @@ theorem drawInts_congr (J : Inst) (E : EOps) (c c' : CoinSt) (n dom nonce : Nat)
       cases o1 <;> rfl
 
 theorem noAux_fields {d : Desc} (h : d.aux.isSome = false) :
-    d.auxCons = [] ∧ d.auxAsserts = [] ∧ d.auxDegs = [] ∧ d.auxWidth = 0 := by
+    d.auxCons = [] ∧ d.auxAsserts = [] ∧ d.auxDegs = [] ∧ d.auxWidth = 0 ∧ d.lagrange = false := by
   cases hd : d.aux with
-  | none => simp [Desc.auxCons, Desc.auxAsserts, Desc.auxDegs, Desc.auxWidth, hd]
+  | none => simp [Desc.auxCons, Desc.auxAsserts, Desc.auxDegs, Desc.auxWidth, Desc.lagrange, hd]
   | some x => rw [hd] at h; cases h
 
 /-- the challenges the verifier derives from the proof of a run -/
@@ -471,7 +472,7 @@ def runChallenges (J : Inst) (r : Run) (aLast : El) (c9 : CoinSt) : Challenges C
 theorem challenges_of_run {J : Inst} {E : EOps} {d : Desc} {trace : List (List Nat)} {o : Serde.ProofOptions} {r : Run}
     (acc : Acceptable) (hrun : proveRun J E d trace o = .ok r) (aLast : El) (c9 : CoinSt)
     (hlast : (coinOps J E).draw r.p2.c8 = some (aLast, c9))
-    (hood : evalConstraints E d r.pubs r.ctx.traceInfo [] r.p1.coeffs r.p1.oodTrace r.p1.z
+    (hood : evalConstraints E d r.pubs r.ctx.traceInfo [] [] r.p1.coeffs r.p1.oodTrace r.p1.z
       = combineOod E d.air.n r.p1.z r.p1.oodEvals)
     (mdk : Nat) (hbk : Protocol.degreeBookkeeping d.air.n (friOpts o).folding
       (Fri.numFriLayers (friOpts o) (d.air.n * o.blowup)) = some mdk) :
@@ -480,7 +481,7 @@ theorem challenges_of_run {J : Inst} {E : EOps} {d : Desc} {trace : List (List N
   have P1 := phase1_ok h1
   have P2 := phase2_ok h2
   have P3 := phase3_ok h3
-  obtain ⟨hac, haa, had, haw⟩ := noAux_fields P1.noAux
+  obtain ⟨hac, haa, had, haw, hlag⟩ := noAux_fields P1.noAux
   have hctx : r.ctx = contextOf J d o := P1.ctx
   have hn8 : 8 ≤ d.air.n := by
     have := P1.wf
@@ -521,7 +522,7 @@ theorem challenges_of_run {J : Inst} {E : EOps} {d : Desc} {trace : List (List N
   rw [hms]
   simp only [Bool.not_false, if_true]
   have hnco : (airInst J E d r.pubs (contextOf J d o)).numCoeffs = d.air.constraints.length + d.air.assertions.length := by
-    simp [airInst, hac, haa]
+    simp [airInst, hac, haa, hlag]
   rw [hnco, P1.coeffs]
   simp only
   rw [P1.z]
@@ -535,7 +536,7 @@ theorem challenges_of_run {J : Inst} {E : EOps} {d : Desc} {trace : List (List N
   have hH : (mkVerifier J E d r.pubs acc).hashElems = hashEls J := rfl
   rw [hH, ← P1.c6]
   have hnd : (airInst J E d r.pubs (contextOf J d o)).numDeepCoeffs = d.air.width + r.p1.ncols := by
-    simp [airInst, contextOf]
+    simp [airInst, contextOf, hlag]
     rw [show numCols J d ⟨⟨d.air.width, 0, 0, d.air.n, []⟩, (frontAir J d).modulusBytes, o⟩ = r.p1.ncols from hnc]
   rw [hnd, P1.deep]
   simp only
@@ -599,7 +600,7 @@ theorem lde_pow2 {J : Inst} {d : Desc} {o : Serde.ProofOptions} (h : (contextOf 
 /-- the named hypotheses about the DEEP/FRI part and the coin: see `Open` -/
 def friAccepts (J : Inst) (E : EOps) (d : Desc) (o : Serde.ProofOptions) (r : Run) (aLast : El) (c9 : CoinSt) : Prop :=
   friVerify (mkVerifier J E d r.pubs (.optionSet [o])) (airInst J E d r.pubs r.ctx) r.cm r.op (runChallenges J r aLast c9)
-    (deepCompose E d.air.n (d.air.n * o.blowup) d.air.width (d.air.width + 0) r.positions r.p1.z r.p1.deep
+    (deepCompose E d.air.n (d.air.n * o.blowup) d.air.width (d.air.width + 0) (d.air.width + 0) none r.positions r.p1.z r.p1.deep
       [r.p3.traceOpen.rows] r.p3.consOpen.rows r.p1.oodTrace r.p1.oodEvals) = .ok ()
 
 /-- **acceptance of the run's proof by the verifier's decision function** (`VerifierChecks.verify` at the concrete
@@ -609,7 +610,7 @@ def friAccepts (J : Inst) (E : EOps) (d : Desc) (o : Serde.ProofOptions) (r : Ru
 theorem verify_of_run {J : Inst} {E : EOps} {d : Desc} {trace : List (List Nat)} {o : Serde.ProofOptions} {r : Run}
     (hrun : proveRun J E d trace o = .ok r) (aLast : El) (c9 : CoinSt)
     (hlast : (coinOps J E).draw r.p2.c8 = some (aLast, c9))
-    (hood : evalConstraints E d r.pubs r.ctx.traceInfo [] r.p1.coeffs r.p1.oodTrace r.p1.z
+    (hood : evalConstraints E d r.pubs r.ctx.traceInfo [] [] r.p1.coeffs r.p1.oodTrace r.p1.z
       = combineOod E d.air.n r.p1.z r.p1.oodEvals)
     (mdk : Nat) (hbk : Protocol.degreeBookkeeping d.air.n (friOpts o).folding
       (Fri.numFriLayers (friOpts o) (d.air.n * o.blowup)) = some mdk)
@@ -620,6 +621,7 @@ theorem verify_of_run {J : Inst} {E : EOps} {d : Desc} {trace : List (List Nat)}
   have P1 := phase1_ok h1
   have P3 := phase3_ok h3
   have hctx : r.ctx = contextOf J d o := P1.ctx
+  have hlag : d.lagrange = false := (noAux_fields P1.noAux).2.2.2.2
   obtain ⟨dd, hdd, hd1, hd2, hn8, hq0⟩ := lde_pow2 P1.wf
   have hqlt := drawInts_some_lt J E _ _ _ _ _ P3.drawn
   -- the positions
@@ -684,8 +686,9 @@ theorem verify_of_run {J : Inst} {E : EOps} {d : Desc} {trace : List (List Nat)}
   rw [hc]
   simp only [Bool.not_true, Bool.false_eq_true, if_false]
   have hdc : (airInst J E d r.pubs r.ctx).deepCompose
-      = deepCompose E d.air.n (d.air.n * o.blowup) d.air.width (d.air.width + 0) := by
-    rw [airInst_deepCompose, hctx]; rfl
+      = deepCompose E d.air.n (d.air.n * o.blowup) d.air.width (d.air.width + 0) (d.air.width + 0) none := by
+    rw [airInst_deepCompose, hctx]
+    simp only [contextOf, auxFrameWidth, hlag, Bool.false_eq_true, if_false]
   rw [hdc]
   exact hfri
 
@@ -811,7 +814,7 @@ structure Open (J : Inst) (E : EOps) (d : Desc) (o : Serde.ProofOptions) (r : Ru
   /-- OOD CONSISTENCY (missing: the transfer of C17 `committed_eq_definition` — proved over a field for the same
       pipeline `compositionTrace / compositionPoly / evaluateConstraints` — to raw words through C07/C08, C09 for
       the interpolation, and `z` off the trace domain) -/
-  ood : evalConstraints E d r.pubs r.ctx.traceInfo [] r.p1.coeffs r.p1.oodTrace r.p1.z
+  ood : evalConstraints E d r.pubs r.ctx.traceInfo [] [] r.p1.coeffs r.p1.oodTrace r.p1.z
     = combineOod E d.air.n r.p1.z r.p1.oodEvals
   /-- the coin yields the alpha the verifier draws after the remainder commitment (missing: nothing provable — this
       is the documented 1000-attempt limit of C19), and FRI ACCEPTS the DEEP evaluations the verifier recomputes
@@ -854,5 +857,104 @@ theorem c01_complete_exec_of_open {J : Inst} {E : EOps} {d : Desc} {trace : List
     (∃ bs, refProve J d trace o = .ok bs ∧ refVerify J d (refPubInputs J d trace) (.optionSet [o]) bs = .ok) ∨
       CoinAccident J d trace o :=
   Or.inl (c01_complete_exec_partial hE hrun hbs hadm.sched O)
+
+/-! ## 9. The open hypotheses are decidable on a concrete run, and hold on one -/
+
+deriving instance DecidableEq for Model.VerifierChecks.Committed
+deriving instance DecidableEq for Model.VerifierChecks.Opening
+deriving instance DecidableEq for Model.VerifierChecks.Opened
+
+/-- a decision procedure for "the prover completes, serializes, and the three open conjuncts of `Open` hold": it
+    EVALUATES them (parse and channel, equality of the parsed values with the prover's, the OOD equation, the extra
+    coin element, FRI acceptance of the recomputed DEEP evaluations) -/
+def openCheck (J : Inst) (E : EOps) (d : Desc) (trace : List (List Nat)) (o : Serde.ProofOptions) : Bool :=
+  match proveRun J E d trace o, refProve J d trace o with
+  | .ok r, .ok bs =>
+    match (Parse.parseProof bs).1 with
+    | .ok p =>
+      match Parse.airNew (frontAir J d) p.context.traceInfo p.context.options with
+      | some ncols =>
+        match channelParse (chanCfg J d p.context ncols) p with
+        | .ok c =>
+          match (coinOps J E).draw r.p2.c8 with
+          | some (aLast, c9) =>
+            decide (p.context.modulus = (frontAir J d).modulusBytes) &&
+            decide (policyVerdict J d (.optionSet [o]) p.context = none) &&
+            decide ((Parse.verifyFront (frontAir J d) p).1 = .pass) &&
+            shapeOk J E d r.pubs (.optionSet [o]) p.context c &&
+            decide (p.context = r.ctx) && decide (committedOf J c = r.cm) && decide (openedOf J c = r.op) &&
+            decide (evalConstraints E d r.pubs r.ctx.traceInfo [] [] r.p1.coeffs r.p1.oodTrace r.p1.z
+              = combineOod E d.air.n r.p1.z r.p1.oodEvals) &&
+            (match friVerify (mkVerifier J E d r.pubs (.optionSet [o])) (airInst J E d r.pubs r.ctx) r.cm r.op
+                (runChallenges J r aLast c9)
+                (deepCompose E d.air.n (d.air.n * o.blowup) d.air.width (d.air.width + 0) (d.air.width + 0) none r.positions r.p1.z r.p1.deep
+                  [r.p3.traceOpen.rows] r.p3.consOpen.rows r.p1.oodTrace r.p1.oodEvals) with
+             | .ok _ => true
+             | .error _ => false)
+          | none => false
+        | _ => false
+      | none => false
+    | _ => false
+  | _, _ => false
+
+/-- soundness of the decision procedure -/
+theorem open_of_check {J : Inst} {E : EOps} {d : Desc} {trace : List (List Nat)} {o : Serde.ProofOptions}
+    (hE : extOps J o.fieldExt = some E) (h : openCheck J E d trace o = true) :
+    ∃ r bs, proveRun J E d trace o = .ok r ∧ refProve J d trace o = .ok bs ∧ Open J E d o r bs := by
+  unfold openCheck at h
+  split at h
+  · rename_i r bs hr hb
+    split at h
+    · rename_i p hp
+      split at h
+      · rename_i ncols hair
+        split at h
+        · rename_i c hc
+          split at h
+          · rename_i aLast c9 hdraw
+            simp only [Bool.and_eq_true, decide_eq_true_eq] at h
+            obtain ⟨⟨⟨⟨⟨⟨⟨⟨hmod, hpol⟩, hfront⟩, hshape⟩, hctx⟩, hcm⟩, hop⟩, hood⟩, hfri⟩ := h
+            have hfri' : friAccepts J E d o r aLast c9 := by
+              unfold friAccepts
+              split at hfri
+              · rename_i u hu; cases u; exact hu
+              · cases hfri
+            have P1 := phase1_ok (proveRun_ok hr).1
+            have hopt : p.context.options.fieldExt = o.fieldExt := by
+              rw [hctx, show r.ctx = r.p1.ctx from rfl, P1.ctx]; rfl
+            have hgkr : (d.lagrange && decide (p.context.traceInfo.aux > 0) && gkrUndecodable c.gkr) = false := by
+              rw [(noAux_fields P1.noAux).2.2.2.2]; rfl
+            exact ⟨r, bs, hr, hb,
+              ⟨⟨p, ncols, c, ⟨hp, hmod, hpol, hfront, hair, by rw [hopt]; exact hE, hc, hgkr, hshape⟩, hctx, hcm, hop⟩,
+               hood, ⟨aLast, c9, hdraw, hfri'⟩⟩⟩
+          · cases h
+        · cases h
+      · cases h
+    · cases h
+  · cases h
+
+set_option maxRecDepth 1000000 in
+/-- the hypotheses of `c01_complete_exec_partial` hold on an actual run (kernel evaluation at the zero-round
+    hasher instance: periodic column, sequence / periodic / single assertions, one FRI layer) -/
+theorem open_check_per8 :
+    openCheck Inst.toy (baseOps Inst.toy.I Inst.toy.norm) descPer8 tracePer8 optsW2 = true := by
+  decide +kernel
+
+/-- **non-vacuity**: a concrete run satisfies every hypothesis of `c01_complete_exec_partial` (prover completes and
+    serializes, well-formed schedule, `Open`), and the theorem then yields acceptance of its bytes -/
+example :
+    ∃ r bs, proveRun Inst.toy (baseOps Inst.toy.I Inst.toy.norm) descPer8 tracePer8 optsW2 = .ok r ∧
+      refProve Inst.toy descPer8 tracePer8 optsW2 = .ok bs ∧
+      Protocol.wellFormed (descPer8.air.n * optsW2.blowup) (glueOpts optsW2) = true ∧
+      Open Inst.toy (baseOps Inst.toy.I Inst.toy.norm) descPer8 optsW2 r bs ∧
+      refVerify Inst.toy descPer8 (refPubInputs Inst.toy descPer8 tracePer8) (.optionSet [optsW2]) bs = .ok := by
+  have hE : extOps Inst.toy optsW2.fieldExt = some (baseOps Inst.toy.I Inst.toy.norm) := rfl
+  obtain ⟨r, bs, hr, hb, hO⟩ := open_of_check hE open_check_per8
+  have hw : Protocol.wellFormed (descPer8.air.n * optsW2.blowup) (glueOpts optsW2) = true := by decide +kernel
+  obtain ⟨bs', hb', hv⟩ := c01_complete_exec_partial hE hr hb hw hO
+  rw [hb] at hb'
+  injection hb' with hb'
+  subst hb'
+  exact ⟨r, bs, hr, hb, hw, hO, hv⟩
 
 end WinterProofs.C01Prover
